@@ -70,7 +70,7 @@ PROPS = {
         'theorems': ['Cqos.C18.c18_comb', 'Cqos.C18.c18_comb_count', 'Cqos.C18.c18_nonfatal_iff',
                      'Cqos.C18.c18_unfixed_counterexample', 'Cqos.C18.c18_suitable_imp', 'Cqos.C18.c18_suitable_mono',
                      'Cqos.C18.c18_pick_min', 'Cqos.C18.c18_pick_max', 'Cqos.C18.c18_accepted',
-                     'Cqos.C18.c18_accepted_fair', 'Cqos.C18.c18_accepted_rate', 'Cqos.C18.c18_fair_nonfatal_iff'],
+                     'Cqos.C18.c18_accepted_fair', 'Cqos.C18.c18_accepted_rate', 'Cqos.C18.c18_fair_nonfatal_iff', 'Cqos.C18.c18_fair_pick_min', 'Cqos.C18.c18_fair_pick_max'],
         'runs': [{'cmd': 'pure', 'args': ['-family', 'c18']}, {'cmd': 'blackbox', 'args': ['-scenario', 'utils']}],
         'monitor_prefix': ['C18'],
         'level': 'proof',
